@@ -44,6 +44,10 @@ type C12Scenario struct {
 	// Linger: after the workload completed keep the world running until the
 	// inactivity timers had their say
 	Linger bool `json:"linger,omitempty"`
+	// Backlog: stream 0's receiving application (HoldReader) stays away while
+	// megabytes arrive for it; the fault strikes once all of them were written,
+	// and the application comes back only after the teardown
+	Backlog bool `json:"backlog,omitempty"`
 }
 
 type c12Closer struct {
@@ -155,7 +159,27 @@ func (r *c12Run) write(t *c12Task, w io.Writer, st *streamState, dir, n int) boo
 		}
 		off += k
 	}
+	if r.sc.Backlog && st.plan.HoldReader && dir == 0 {
+		r.backlogWritten()
+	}
 	return true
+}
+
+// backlogWritten strikes the scenario's fault (Backlog scenarios).
+func (r *c12Run) backlogWritten() {
+	f := r.sc.Fault
+	r.c.Probe("backlog_written_then:" + f.Kind)
+	switch f.Kind {
+	case "close-c", "close-s":
+		if fn := r.closeFn; fn != nil {
+			r.closeFn = nil
+			fn()
+		}
+	case "reset":
+		r.c.Net.Reset(r.sw.Links[f.Link])
+	case "eof0", "eof1":
+		r.c.Net.Fin(r.sw.Links[f.Link], int(f.Kind[3]-'0'))
+	}
 }
 
 // progress opens pending streams and triggers the session Close.
@@ -174,7 +198,7 @@ func (r *c12Run) progress() {
 		}
 	}
 	f := r.sc.Fault
-	if r.closeFn != nil {
+	if r.closeFn != nil && !r.sc.Backlog {
 		n := r.cRead
 		if f.Kind == "close-s" {
 			n = r.sRead
@@ -276,7 +300,26 @@ func (r *c12Run) acceptor(t *c12Task, stream net.Conn) {
 	r.sw.Progress(r.sRead)
 	st := r.states[tag]
 	r.task("acceptor-w", func(t *c12Task) { r.write(t, stream, st, 1, st.plan.Down) })
+	if st.plan.HoldReader {
+		// the application is busy elsewhere; a teardown must not wait for it
+		// (virtual time passes only when nothing else can run)
+		for i := 0; !r.tornDown() && !r.c.Failed(); i++ {
+			if i == 1200 && r.faultFired() {
+				r.fail("teardown-waits-for-reader", "stream tag %d holds unread data and its application is not reading; 2 virtual minutes after the fault the session is still not torn down (client closed=%v, server closed=%v)\n%s", st.tag, r.sw.C.IsClosed(), r.sw.S.IsClosed(), r.c.W.DumpTasks())
+				return
+			}
+			Sleep(100 * time.Millisecond)
+		}
+	}
 	r.read(t, stream, st, 0, st.plan.Up, &st.upRead, 1)
+}
+
+func (r *c12Run) tornDown() bool {
+	if !r.sw.C.IsClosed() || !r.sw.S.IsClosed() {
+		return false
+	}
+	ok, _ := r.connsClosed()
+	return ok
 }
 
 func (r *c12Run) allDone() bool {
@@ -361,6 +404,17 @@ func genC12Streams(g *Gen, ns, maxBytes int) []C12Stream {
 
 func genC12Random(g *Gen) any {
 	sc := &C12Scenario{PatKey: g.Rng.Uint64()}
+	if g.Bool(0.02) {
+		sc.Backlog = true
+		sc.Sess = SessParams{Method: byte(g.Int(0, 3)), NConn: g.Int(1, 3), InactS: 30, Partial: g.Bool(0.3)}
+		sc.Streams = []C12Stream{{StreamPlan: StreamPlan{SizeClass: 3, SizeSeed: g.Rng.Uint64(), ReadBuf: 65536, Up: g.Pick(1300000, 4500000, 6000000), HoldReader: true}}}
+		for k := g.Int(0, 2); k > 0; k-- {
+			// bystanders whose readers are parked when the fault strikes
+			sc.Streams = append(sc.Streams, C12Stream{StreamPlan: StreamPlan{SizeClass: g.Int(1, 4), SizeSeed: g.Rng.Uint64(), ReadBuf: 4096, Up: g.Int(0, 3000), Down: g.Int(0, 3000)}})
+		}
+		sc.Fault = C12Fault{Kind: []string{"reset", "eof0", "eof1", "close-c", "close-s"}[g.Rng.IntN(5)], Link: g.Int(0, sc.Sess.NConn-1)}
+		return sc
+	}
 	sc.Sess = genSessParams(g, 4)
 	sc.Sess.Stalls = nil
 	sc.Sess.InactS = g.Pick(1, 5, 30, 30)
@@ -434,7 +488,7 @@ func runC12(c *Ctx, scAny any) {
 	f := sc.Fault
 	switch f.Kind {
 	case "reset", "eof0", "eof1":
-		if f.Link < len(sw.Links) {
+		if f.Link < len(sw.Links) && !sc.Backlog {
 			sw.Links[f.Link].Script = append(sw.Links[f.Link].Script, simnet.ScriptedFault{Dir: f.Dir, AfterWrite: f.AfterWrite, AtByte: f.AtByte, Kind: f.Kind})
 		}
 	case "sched-reset":
@@ -470,13 +524,7 @@ func runC12(c *Ctx, scAny any) {
 		}
 	}
 	r.progress()
-	tornDown := func() bool {
-		if !sw.C.IsClosed() || !sw.S.IsClosed() {
-			return false
-		}
-		ok, _ := r.connsClosed()
-		return ok
-	}
+	tornDown := r.tornDown
 	end := c.Drive(func() bool {
 		if r.bad != "" {
 			return true
@@ -553,13 +601,14 @@ func init() {
 		VirtCap:    10 * time.Minute,
 	})
 	register(&Family{
-		Name:    "c12-random",
-		Count:   func(tier string) int { return map[string]int{"quick": 4000, "thorough": 120000}[tier] },
-		Gen:     genC12Random,
-		New:     func() any { return &C12Scenario{} },
-		Run:     runC12,
-		Policy:  pol,
-		VirtCap: 10 * time.Minute,
+		Name:     "c12-random",
+		MaxSteps: 6000000, // (a cap only: Backlog scenarios move megabytes)
+		Count:    func(tier string) int { return map[string]int{"quick": 4000, "thorough": 120000}[tier] },
+		Gen:      genC12Random,
+		New:      func() any { return &C12Scenario{} },
+		Run:      runC12,
+		Policy:   pol,
+		VirtCap:  10 * time.Minute,
 	})
 	plans["C12"] = []string{"c12-boundary", "c12-random"}
 }
